@@ -312,6 +312,44 @@ def files_bounded(seed, n):
     return n, bad
 
 
+def block_independence():
+    """Small scope, complete within it: the pulse train of a data block does not depend on the blocks before it.
+    Bit-pulse sequences of length 1..3 over the durations {300, 700} for the 0 and 1 bits of two consecutive blocks
+    (every ordered pair of distinct timing pairs): the second block's pulses, measured between its first and last
+    edge, equal those of the same block alone."""
+    import itertools
+    import skoolkit.tape as T
+    seqs = [s_ for L in (1, 2, 3) for s_ in itertools.product((300, 700), repeat=L)]
+    pairs = [(z, o) for z in seqs for o in seqs]
+
+    def blk(t):
+        b = T.TapeBlock(1, [0xA5], t)
+        b.keys = None
+        return b
+
+    def pulses(edges, d):
+        return [edges[i + 1] - edges[i] for i in range(d.start, d.end)]
+    alone = {}
+    for z, o in pairs:
+        e, ds = T.get_edges([blk(T.TapeBlockTimings(pulses=(), zero=z, one=o, pause=0, used_bits=8, tail=0))], 0, 0)
+        alone[(z, o)] = pulses(e, ds[0])
+    bad = []
+    n = 0
+    for (z1, o1) in pairs:
+        for (z2, o2) in pairs:
+            if (z1, o1) == (z2, o2):
+                continue
+            n += 1
+            a = blk(T.TapeBlockTimings(pulses=(), zero=z1, one=o1, pause=0, used_bits=8, tail=0))
+            b = blk(T.TapeBlockTimings(pulses=(), zero=z2, one=o2, pause=0, used_bits=8, tail=0))
+            e, ds = T.get_edges([a, b], 0, 0)
+            if len(ds) != 2 or pulses(e, ds[1]) != alone[(z2, o2)]:
+                bad.append(((z1, o1), (z2, o2)))
+                if len(bad) > 5:
+                    return n, bad
+    return n, bad
+
+
 def flag_consistency():
     """E: for every flag byte, the same one-block tape read as TAP, as TZX 0x10 and as the PZX file written by
     write_pzx gives the same edges up to the end of the data (PZX adds its 945 T-state tail pulse after them)."""
@@ -383,6 +421,12 @@ def run(tier):
     rep.exhaustive.append({'domain': 'pulse counts %s x used bits 1..8 x last byte 0..255 (durations symbolic)' % combos, 'size': sum(r[1] for r in res), 'visited': sum(r[1] for r in res), 'complete': True})
     check_constants(rep)
     check_pzx_puls(rep)
+    nb_, badb = block_independence()
+    rep.add_bulk(nb_ - len(badb), 'exhaustive', 0, 'skoolkit.tape.get_edges (per-call byte timing cache)', n=nb_)
+    rep.exhaustive.append({'domain': 'ordered pairs of consecutive data blocks whose 0/1 bit-pulse sequences have length 1..3 over durations {300, 700} (small scope: complete within it)', 'size': nb_, 'visited': nb_, 'complete': False})
+    if badb:
+        rep.violation('C11/block-independence', 'the pulse train of a data block with bit pulses %s / %s changes when it follows a block with %s / %s' % (badb[0][1][0], badb[0][1][1], badb[0][0][0], badb[0][0][1]),
+                      {'case': {'first_block_timings': [list(x) for x in badb[0][0]], 'second_block_timings': [list(x) for x in badb[0][1]]}})
     nf, badf = flag_consistency()
     rep.add_bulk(nf - len(badf), 'exhaustive', 0, 'skoolkit.tape._get_tape_block_timings / write_pzx / get_edges (pilot length per flag byte)', n=nf)
     rep.exhaustive.append({'domain': 'flag bytes 0..255: TAP, TZX 0x10 and written-PZX forms of the same block give the same edges up to the end of the data', 'size': nf, 'visited': nf, 'complete': True})
@@ -431,6 +475,13 @@ def replay(path):
         doc = json.load(f)
     case = doc.get('case')
     print('replaying', doc.get('key'), case)
+    if isinstance(case, dict) and 'second_block_timings' in case:
+        n_, bad = block_independence()
+        print(bad[:2])
+        if bad:
+            print('VIOLATION property=C11 replay=%s' % path)
+            return 1
+        return 0
     if isinstance(case, dict) and 'flag_byte' in case:
         n_, bad = flag_consistency()
         bad = [b for b in bad if b[0] == case['flag_byte']]
